@@ -108,6 +108,8 @@ def main():
                 res.count("scenarios-died", len(_bench.DEAD_BENCHES))
             reach.stop()
             res.count("debug-log-records-formatted", debuglog["records"])
+            if sys.flags.optimize:
+                res.count("shards-run-under-python-O")
             if debuglog["format_errors"]:
                 res.count("debug-log-records-that-failed-to-format", debuglog["format_errors"])
             anchors = getattr(mod, "ANCHORS", None)
